@@ -612,6 +612,32 @@ pub fn sql_of(p: &P) -> String {
     }
 }
 
+/// The same predicate in one of the spellings SQL offers for it (the negated keyword forms,
+/// the flipped comparison, != for <>, a one-element IN for =). Lane 3 compares against
+/// DataFusion on the *same text*, so the spelling only has to be valid SQL.
+pub fn sql_variant(p: &P, rng: &mut Rng) -> String {
+    let alt = rng.chance(1, 2);
+    match p {
+        P::Not(a) if alt => match a.as_ref() {
+            P::Between(c, lo, hi) => format!("{} NOT BETWEEN {} AND {}", c, sql_const(lo), sql_const(hi)),
+            P::In(c, vs) => format!("{} NOT IN ({})", c, vs.iter().map(sql_const).collect::<Vec<_>>().join(", ")),
+            P::Eq(c, v) => format!("{} != {}", c, sql_const(v)),
+            other => format!("NOT ({})", sql_variant(other, rng)),
+        },
+        P::Between(c, lo, hi) if alt && rng.chance(1, 2) => format!("{} NOT BETWEEN {} AND {}", c, sql_const(lo), sql_const(hi)),
+        P::NotEq(c, v) if alt => format!("{} != {}", c, sql_const(v)),
+        P::Lt(c, v) if alt => format!("{} > {}", sql_const(v), c),
+        P::LtEq(c, v) if alt => format!("{} >= {}", sql_const(v), c),
+        P::Gt(c, v) if alt => format!("{} < {}", sql_const(v), c),
+        P::GtEq(c, v) if alt => format!("{} <= {}", sql_const(v), c),
+        P::Eq(c, v) if alt => format!("{} IN ({})", c, sql_const(v)),
+        P::And(a, b) => format!("({} AND {})", sql_variant(a, rng), sql_variant(b, rng)),
+        P::Or(a, b) => format!("({} OR {})", sql_variant(a, rng), sql_variant(b, rng)),
+        P::Not(a) => format!("(NOT {})", sql_variant(a, rng)),
+        other => sql_of(other),
+    }
+}
+
 fn no_empty_lists(p: &P) -> bool {
     match p {
         P::In(_, v) | P::NotIn(_, v) => !v.is_empty() && !v.iter().any(|x| matches!(x, V::Null)),
@@ -660,7 +686,10 @@ async fn lane3(ctx: &Ctx, out: &mut Outcome, total: u64) {
                 break p;
             }
         };
-        let where_sql = sql_of(&p);
+        let where_sql = if idx % 2 == 0 { sql_of(&p) } else { sql_variant(&p, &mut rng) };
+        if where_sql.contains("NOT BETWEEN") {
+            out.count("lane3.sql_not_between", 1);
+        }
         // the usual shape (with a time window) extracts nothing on this tree because the
         // converter gives up on a conjunction containing a timestamp comparison; so most
         // cases use the bare predicate, which is what reaches the evaluator
